@@ -172,13 +172,15 @@ func buildError(s *Service, o *Outcome) error {
 	case "make": // declared error of type ErrorResult
 		mk, ok := s.MakeErr[norm(o.ErrName)]
 		if !ok {
-			Fatal("no Make function for error %q (have %v)", o.ErrName, s.MakeErr)
+			// goa generates no Make<Name> function for errors declared at the API level: build the
+			// service error the way user code has to, with the flags the design declares
+			return goa.NewServiceError(errors.New(msg), o.ErrName, o.Flags[0], o.Flags[1], o.Flags[2])
 		}
 		return mk(errors.New(msg))
 	case "wrapmake":
 		mk, ok := s.MakeErr[norm(o.ErrName)]
 		if !ok {
-			Fatal("no Make function for error %q", o.ErrName)
+			return fmt.Errorf("wrapped: %w", goa.NewServiceError(errors.New(msg), o.ErrName, o.Flags[0], o.Flags[1], o.Flags[2]))
 		}
 		return fmt.Errorf("wrapped: %w", mk(errors.New(msg)))
 	case "type": // declared error with a custom type
@@ -343,7 +345,7 @@ func (rt *Runtime) mount() {
 				st.add(Event{"ev": "errhandler", "error": err.Error()})
 			}
 		}
-		s.Mount(eps, rt.mux, &MountOpts{Dec: goahttp.RequestDecoder, Enc: goahttp.ResponseEncoder, EH: eh, Fmt: nil})
+		s.Mount(eps, mountTarget(rt.mux, n), &MountOpts{Dec: goahttp.RequestDecoder, Enc: goahttp.ResponseEncoder, EH: eh, Fmt: nil})
 	}
 }
 
@@ -456,6 +458,7 @@ func Main() {
 	rounds := flag.Int("rounds", 1, "repeat the scenario list this many times (parallel mode)")
 	flag.Parse()
 	theRT.mount()
+	dumpMounts()
 	var scns []*Scenario
 	fh, err := os.Open(*in)
 	if err != nil {
